@@ -1110,28 +1110,409 @@ class _Frame:
 
 def _loop_literal(ctx: Ctx, fi: FuncInfo, it: ast.AST) -> list | None:
     """the elements of a loop's iterable when it is a short literal sequence of plain names / attributes / constants (a table of callables or keys)"""
+    rows = _loop_rows(ctx, fi, it, 0)
+    return [r[0] for r in rows[0]] if rows is not None and not any(isinstance(r[0], ast.Lambda) for r in rows[0]) else None
+
+
+def _plain_entry(x: ast.AST) -> bool:
+    return isinstance(x, (ast.Name, ast.Constant)) or (isinstance(x, ast.Attribute) and _plain_entry(x.value))
+
+
+def _lambda_free_names(lam: ast.Lambda) -> set[str] | None:
+    """
+    The names a lambda reads from the enclosing scope when it is called, None when it is not a plain expression of its
+    positional parameters (defaults are bound early; * / ** parameters, walrus, yield and await are not followed).
+    """
+    a = lam.args
+    if a.defaults or a.kw_defaults or a.kwonlyargs or a.vararg or a.kwarg or a.posonlyargs:
+        return None
+    bound = {x.arg for x in a.args}
+    for n in ast.walk(lam.body):
+        if isinstance(n, (ast.NamedExpr, ast.Yield, ast.YieldFrom, ast.Await)):
+            return None
+        if isinstance(n, (ast.ListComp, ast.SetComp, ast.DictComp, ast.GeneratorExp)):
+            bound |= _comp_bound(n)
+        elif isinstance(n, ast.Lambda):
+            bound |= {x.arg for x in [*n.args.posonlyargs, *n.args.args, *n.args.kwonlyargs]}
+            if n.args.vararg or n.args.kwarg:
+                return None
+    return {n.id for n in ast.walk(lam.body) if isinstance(n, ast.Name) and n.id not in bound}
+
+
+def _loop_rows(ctx: Ctx, fi: FuncInfo, it: ast.AST, width: int):
+    """
+    (rows, from_class) of a loop's iterable when it is a short literal table: width 0 - `for x in (a, b, c)`, one component
+    per row; width n - `for x, y in ((a1, b1), (a2, b2))`, rows of exactly n components; width -1 - rows of one common width,
+    whatever it is.  The table may be wrapped in tuple() / list() / iter() or be a projection `[row[0] for row in T]` /
+    `[(b, a) for a, b in T]` of a literal table (the chosen components of every row, in order).  A component is a plain name /
+    attribute chain / constant, or a lambda of plain positional parameters (a lazy predicate / action: building the
+    table evaluates nothing of it).  from_class: the table is a never-rebound class attribute (its lambdas read their
+    free names in the module's scope).  None for anything else.
+    """
+    via, cur = [], strip_cast(it)
+    while isinstance(cur, ast.Name) and len(via) < 4 and single_def(fi, cur.id) is not None and single_def(fi, cur.id)[1] is None:
+        via.append(cur.id)
+        cur = strip_cast(single_def(fi, cur.id)[0])
     it = resolve(fi, it)
+    if isinstance(it, (ast.List, ast.ListComp)) and not all(_only_read(fi, nm) for nm in via):
+        return None                                 # a list that is changed in place / handed out after it was built
+    from_class = False
+    while isinstance(it, ast.Call) and chain(it.func) in ("tuple", "list", "iter") and len(it.args) == 1 and not it.keywords and not isinstance(it.args[0], ast.Starred) \
+            and not local_defs(fi, chain(it.func)) and chain(it.func) not in fi.params():
+        it = resolve(fi, it.args[0])               # the same elements in the same order
+    if isinstance(it, (ast.ListComp, ast.GeneratorExp)) and len(it.generators) == 1 and not it.generators[0].ifs and not it.generators[0].is_async:
+        # a projection of a literal table: [row[0] for row in T] / [(h, r) for r, h in T] - the chosen components of every row, in order
+        g = it.generators[0]
+        if isinstance(g.target, ast.Name):
+            inner = _loop_rows(ctx, fi, g.iter, -1)
+            env_of = (lambda r, g=g: {(g.target.id, k): c for k, c in enumerate(r)})
+        elif isinstance(g.target, (ast.Tuple, ast.List)) and g.target.elts and all(isinstance(t, ast.Name) for t in g.target.elts) and len({t.id for t in g.target.elts}) == len(g.target.elts):
+            inner = _loop_rows(ctx, fi, g.iter, len(g.target.elts))
+            env_of = (lambda r, g=g: {(t.id, None): c for t, c in zip(g.target.elts, r)})
+        else:
+            return None
+        if inner is None:
+            return None
+
+        def pick(e: ast.AST, env: dict):
+            if isinstance(e, ast.Name) and (e.id, None) in env:
+                return env[(e.id, None)]
+            if isinstance(e, ast.Subscript) and isinstance(e.value, ast.Name) and isinstance(const_value(e.slice), int) and not isinstance(const_value(e.slice), bool) \
+                    and (e.value.id, const_value(e.slice)) in env:
+                return env[(e.value.id, const_value(e.slice))]
+            return None
+        rows = []
+        for r in inner[0]:
+            env = env_of(r)
+            want = list(it.elt.elts) if isinstance(it.elt, (ast.Tuple, ast.List)) and width != 0 else [it.elt]
+            comps = [pick(e, env) for e in want]
+            if any(c is None for c in comps) or (width > 0 and len(comps) != width) or (width == -1 and rows and len(comps) != len(rows[0])):
+                return None
+            rows.append(comps)
+        return rows, inner[1]
     if isinstance(it, ast.Attribute) and isinstance(it.value, ast.Name) and it.value.id in ("self", "cls") and fi.cls is not None:
         written = any(isinstance(a.ctx, (ast.Store, ast.Del)) for m, f2, a in ctx.repo.attribute_uses(it.attr) if isinstance(a.value, ast.Name) and a.value.id in ("self", "cls"))
         it = fi.cls.lookup_attr(it.attr) if not written else None
+        from_class = True
     if not isinstance(it, (ast.Tuple, ast.List)) or not 1 <= len(it.elts) <= 8:
         return None
+    rows = []
+    for e in it.elts:
+        comps = [e] if width == 0 else list(e.elts) if isinstance(e, (ast.Tuple, ast.List)) else None
+        if comps is None or (width >= 0 and len(comps) != max(width, 1)) or (width == -1 and (not comps or (rows and len(comps) != len(rows[0])))):
+            return None
+        for x in comps:
+            if isinstance(x, ast.Lambda):
+                free = _lambda_free_names(x)
+                if free is None:
+                    return None
+                if from_class and any(n in fi.params() or local_defs(fi, n) for n in free):
+                    return None                     # a name of the module's scope that a local of fi would capture
+            elif not _plain_entry(x):
+                return None
+        rows.append(comps)
+    return rows, from_class
 
-    def plain(x: ast.AST) -> bool:
-        return isinstance(x, (ast.Name, ast.Constant)) or (isinstance(x, ast.Attribute) and plain(x.value))
-    return list(it.elts) if all(plain(x) for x in it.elts) else None
+
+def _beta(lam: ast.Lambda, args: list) -> ast.AST | None:
+    """
+    The body of `lam` with its parameters replaced by the (plain: name / attribute chain / constant) arguments of a direct
+    call: what `(lambda p, q: BODY)(a, b)` evaluates when the call is made - free names are read at call time (late
+    binding), so BODY at the call site reads the same values.  None when an argument would be captured by a
+    comprehension / inner lambda of BODY or is not plain.
+    """
+    params = [x.arg for x in lam.args.args]
+    if len(params) != len(args) or not all(_plain_entry(a) for a in args):
+        return None
+    inner: set[str] = set()
+    for n in ast.walk(lam.body):
+        if isinstance(n, (ast.ListComp, ast.SetComp, ast.DictComp, ast.GeneratorExp)):
+            inner |= _comp_bound(n)
+        elif isinstance(n, ast.Lambda):
+            inner |= {x.arg for x in [*n.args.posonlyargs, *n.args.args, *n.args.kwonlyargs]}
+    if inner & (set(params) | {n.id for a in args for n in ast.walk(a) if isinstance(n, ast.Name)}):
+        return None
+    env = dict(zip(params, args))
+
+    class Bind(ast.NodeTransformer):
+        def visit_Name(self, x):  # noqa: N802
+            return clone(env[x.id]) if x.id in env and isinstance(x.ctx, ast.Load) else x
+    return Bind().visit(clone(lam.body))
 
 
 def _unrolled(ctx: Ctx, fi: FuncInfo) -> FuncInfo:
     """
     fi with every `for x in (a, b, c): BODY` over a literal table replaced by BODY[x:=a]; BODY[x:=b]; BODY[x:=c] (only
     when BODY neither breaks / continues the loop nor assigns x, and there is no else clause): the same statements are
-    executed in the same order, and each copy of the body names the table entry it works on.
+    executed in the same order, and each copy of the body names the table entry it works on.  Rows may be tuples
+    unpacked by the loop (`for holds, reason in ((lambda: ..., "text"), ...)`); a component that is a lambda is only
+    unrolled when BODY does nothing with it but call it directly, and each such call is replaced by the lambda's body
+    with the parameters bound (the lambda reads its free names when it is called, i.e. at that very place).
     """
     memo = fi.node.__dict__
     if "_c17_unrolled" in memo:
         return memo["_c17_unrolled"]
     memo["_c17_unrolled"] = fi
+    if isinstance(fi.node, ast.Lambda):
+        return fi
+    out = _loops_unrolled(ctx, _tables_folded(ctx, fi))
+    out.node.__dict__["_c17_unrolled"] = out
+    memo["_c17_unrolled"] = out
+    return out
+
+
+def _row_env(fi: FuncInfo, names: list, rows: list, body: list) -> bool:
+    """
+    The loop / comprehension variables `names` can be replaced in `body` (statements or expressions) by the components of
+    each row: body never rebinds them; a column of lambdas holds a lambda in every row, none of them mentions a loop
+    variable, and body does nothing with such a variable but call it directly with plain arguments; every other component
+    is a constant or a name that is bound at most once in fi (its value at the use is its value in the table).
+    """
+    for st in body:
+        for n in ast.walk(st):
+            if isinstance(n, ast.Name) and n.id in names and isinstance(n.ctx, (ast.Store, ast.Del)):
+                return False
+            if isinstance(n, (ast.ListComp, ast.SetComp, ast.DictComp, ast.GeneratorExp)) and _comp_bound(n) & set(names):
+                return False
+            if isinstance(n, ast.Lambda) and {a.arg for a in [*n.args.posonlyargs, *n.args.args, *n.args.kwonlyargs]} & set(names):
+                return False
+    lazy = {names[i] for r in rows for i, x in enumerate(r) if isinstance(x, ast.Lambda)}
+    if not lazy:
+        return True
+    if not all(isinstance(r[i], ast.Lambda) for r in rows for i, nm in enumerate(names) if nm in lazy):
+        return False
+    if any(isinstance(n, ast.Name) and n.id in names for r in rows for x in r if isinstance(x, ast.Lambda) for n in ast.walk(x)):
+        return False
+    if not all(len(local_defs(fi, n.id)) <= 1 for r in rows for x in r if not isinstance(x, ast.Lambda) for n in ast.walk(x) if isinstance(n, ast.Name)):
+        return False
+    for st in body:
+        for n in ast.walk(st):
+            if isinstance(n, ast.Name) and n.id in lazy and isinstance(n.ctx, ast.Load):
+                c = parent(n)
+                if not (isinstance(c, ast.Call) and c.func is n and not c.keywords and all(_plain_entry(a) for a in c.args)
+                        and all(_beta(r[names.index(n.id)], list(c.args)) is not None for r in rows)):
+                    return False
+    return True
+
+
+def _row_subst(names: list, row: list, node: ast.AST) -> ast.AST:
+    """a copy of node with the variables `names` replaced by the components of `row` (direct calls of a lambda component by its body)"""
+    env = dict(zip(names, row))
+
+    class Sub(ast.NodeTransformer):
+        def visit_Name(self, x):  # noqa: N802
+            return clone(env[x.id]) if x.id in env and isinstance(x.ctx, ast.Load) else x
+
+        def visit_Call(self, x):  # noqa: N802
+            if isinstance(x.func, ast.Name) and isinstance(env.get(x.func.id), ast.Lambda):
+                red = _beta(env[x.func.id], [self.visit(a) for a in x.args])
+                if red is not None:
+                    return red
+            return self.generic_visit(x)
+    return Sub().visit(clone(node))
+
+
+def _in_test_position(n: ast.AST) -> bool:
+    """only the truth value of expression n is used"""
+    p = parent(n)
+    if isinstance(p, (ast.If, ast.While, ast.IfExp, ast.Assert)):
+        return p.test is n
+    if isinstance(p, ast.UnaryOp) and isinstance(p.op, ast.Not):
+        return True
+    if isinstance(p, ast.BoolOp):
+        return _in_test_position(p)
+    if isinstance(p, ast.comprehension):
+        return n in p.ifs
+    return False
+
+
+def _tables_folded(ctx: Ctx, fi: FuncInfo) -> FuncInfo:  # noqa: C901, PLR0912, PLR0915
+    """
+    fi with scans of a literal table of rows written out row by row (the same evaluations in the same order):
+      for row in T: ... row[0] ... row[1] ...     ->  for row_0, row_1 in T: ... row_0 ... row_1 ...   (then unrolled)
+      any(E for x, y in T if C)                   ->  (C1 and E1) or (C2 and E2) ...      where only the truth value is used,
+                                                      True if (C1 and E1) else True if ... else False      elsewhere
+      all(E for x, y in T if C)                   ->  not ((C1 and not E1) or ...)  /  False if (C1 and not E1) else ... else True
+      next((E for x, y in T if C), D)             ->  E1 if C1 else E2 if C2 else ... D
+    under the conditions of _loop_rows / _row_env.
+    """
+    def shadowed(name: str) -> bool:
+        return name in fi.params() or bool(local_defs(fi, name)) or name in fi.module.imports
+    cands = []
+    for n in walk_no_nested(fi.node):
+        if isinstance(n, ast.Call) and isinstance(n.func, ast.Name) and n.func.id in ("any", "all", "next") and not n.keywords and not shadowed(n.func.id) \
+                and len(n.args) == (1 if n.func.id != "next" else 2) and isinstance(n.args[0], (ast.GeneratorExp, ast.ListComp)) and len(n.args[0].generators) == 1 \
+                and not n.args[0].generators[0].is_async and not (n.func.id == "next" and isinstance(n.args[0], ast.ListComp)):
+            cands.append(n)
+        elif isinstance(n, ast.For) and isinstance(n.target, ast.Name):
+            cands.append(n)
+    if not cands:
+        return fi
+    new = clone(fi.node)
+    set_parents(new)
+    nf = FuncInfo(fi.name, fi.qualname, new, fi.module, fi.cls)
+    changed = False
+
+    def indexed(target: ast.AST, it: ast.AST, scope: list) -> tuple | None:
+        """(width) when the single variable `target` ranges over literal rows of one width and scope only reads target[<constant position>]"""
+        if not isinstance(target, ast.Name):
+            return None
+        t = resolve(nf, it)
+        if not isinstance(t, (ast.Tuple, ast.List)) or not t.elts or not all(isinstance(e, (ast.Tuple, ast.List)) for e in t.elts):
+            return None
+        w = len(t.elts[0].elts)
+        if w == 0 or any(len(e.elts) != w or any(isinstance(x, ast.Starred) for x in e.elts) for e in t.elts):
+            return None
+        uses = [x for st in scope for x in ast.walk(st) if isinstance(x, ast.Name) and x.id == target.id]
+        for x in uses:
+            p = parent(x)
+            k = const_value(p.slice) if isinstance(p, ast.Subscript) and p.value is x and isinstance(p.ctx, ast.Load) and isinstance(x.ctx, ast.Load) else None
+            if not isinstance(k, int) or isinstance(k, bool) or not 0 <= k < w:
+                return None
+        return w, uses
+
+    def split(target: ast.Name, w: int, uses: list, holder, field: str) -> None:
+        """row -> row_0, row_1 (fresh names), row[k] -> row_k"""
+        fresh = [f"{target.id}_c17col{k}" for k in range(w)]
+        for x in uses:
+            p = parent(x)
+            repl = ast.Name(id=fresh[const_value(p.slice)], ctx=ast.Load())
+            ast.copy_location(repl, p)
+            pp = parent(p)
+            for f, v in ast.iter_fields(pp):
+                if v is p:
+                    setattr(pp, f, repl)
+                elif isinstance(v, list) and any(y is p for y in v):
+                    v[:] = [repl if y is p else y for y in v]
+        tup = ast.Tuple(elts=[ast.Name(id=f, ctx=ast.Store()) for f in fresh], ctx=ast.Store())
+        ast.copy_location(tup, target)
+        setattr(holder, field, tup)
+
+    # 1. single variables that are only indexed become unpacked rows
+    for n in list(walk_no_nested(new)):
+        if isinstance(n, ast.For) and isinstance(n.target, ast.Name) and not n.orelse:
+            name = n.target.id
+            inside = {id(x) for st in n.body for x in ast.walk(st)}
+            if len(local_defs(nf, name)) != 1 or name in nf.params() or \
+                    any(isinstance(x, ast.Name) and x.id == name and id(x) not in inside and x is not n.target for x in ast.walk(new)):
+                continue
+            ix = indexed(n.target, n.iter, n.body)
+            if ix is not None:
+                split(n.target, ix[0], ix[1], n, "target")
+                changed = True
+        elif isinstance(n, ast.Call) and isinstance(n.func, ast.Name) and n.func.id in ("any", "all", "next") and n.args and isinstance(n.args[0], (ast.GeneratorExp, ast.ListComp)) \
+                and len(n.args[0].generators) == 1:
+            g = n.args[0].generators[0]
+            ix = indexed(g.target, g.iter, [n.args[0].elt, *g.ifs])
+            if ix is not None:
+                split(g.target, ix[0], ix[1], g, "target")
+                changed = True
+    if changed:
+        set_parents(new)
+        new.__dict__.pop("_c17_local_defs", None)
+        nf = FuncInfo(fi.name, fi.qualname, new, fi.module, fi.cls)
+    # 2. quantifiers / first-match over a literal table
+    repl = {}
+    stmt_repl = {}
+
+    def at(node: ast.AST, where: ast.AST) -> ast.AST:
+        # a written-out row sits where the row's own text is (distinct positions for distinct decisions)
+        return ast.copy_location(node, where) if hasattr(where, "lineno") else node
+    for n in walk_no_nested(new):
+        if not (isinstance(n, ast.Call) and isinstance(n.func, ast.Name) and n.func.id in ("any", "all", "next") and not n.keywords and not shadowed(n.func.id)
+                and len(n.args) == (1 if n.func.id != "next" else 2) and isinstance(n.args[0], (ast.GeneratorExp, ast.ListComp)) and len(n.args[0].generators) == 1):
+            continue
+        comp, g = n.args[0], n.args[0].generators[0]
+        if g.is_async or (n.func.id == "next" and (isinstance(comp, ast.ListComp) or not _plain_entry(n.args[1]))):
+            continue
+        if isinstance(g.target, ast.Name):
+            names, width = [g.target.id], 0
+        elif isinstance(g.target, (ast.Tuple, ast.List)) and g.target.elts and all(isinstance(t, ast.Name) for t in g.target.elts) and len({t.id for t in g.target.elts}) == len(g.target.elts):
+            names, width = [t.id for t in g.target.elts], len(g.target.elts)
+        else:
+            continue
+        found = _loop_rows(ctx, nf, g.iter, width)
+        if found is None or not _row_env(nf, names, found[0], [comp.elt, *g.ifs]):
+            continue
+        if found[1] and any(isinstance(x, ast.Name) for r in found[0] for c in r if not isinstance(c, ast.Lambda) for x in ast.walk(c)):
+            continue                              # a name of the class body cannot be spelled inside the method
+        kind, test = n.func.id, _in_test_position(n)
+        terms = []
+        for r in found[0]:
+            conds = [_row_subst(names, r, c) for c in g.ifs]
+            elt = _row_subst(names, r, comp.elt)
+            terms.append((conds, elt))
+
+        def negated(e: ast.AST) -> ast.AST:
+            # only the truth value of the result is used: not (not x) is x there
+            return e.operand if isinstance(e, ast.UnaryOp) and isinstance(e.op, ast.Not) else at(ast.UnaryOp(op=ast.Not(), operand=e), e)
+
+        def conj(vals: list) -> ast.AST:
+            return vals[0] if len(vals) == 1 else at(ast.BoolOp(op=ast.And(), values=vals), vals[0])
+        holder = parent(n)
+        if kind == "next" and all(conds for conds, _e in terms) and getattr(holder, "value", None) is n and \
+                ((isinstance(holder, ast.Assign) and len(holder.targets) == 1 and isinstance(holder.targets[0], ast.Name)) or isinstance(holder, ast.Return)):
+            # x = next(...) / return next(...): the same selection as a cascade of statements (one assignment / return per row)
+            def leaf(v: ast.AST, where: ast.AST, holder=holder) -> ast.stmt:
+                st = ast.Return(value=v) if isinstance(holder, ast.Return) else ast.Assign(targets=[ast.Name(id=holder.targets[0].id, ctx=ast.Store())], value=v)
+                return at(st, where)
+            tail = [leaf(clone(n.args[1]), n)]
+            for conds, elt in reversed(terms):
+                tail = [at(ast.If(test=conj(conds), body=[leaf(elt, conds[0])], orelse=tail), conds[0])]
+            stmt_repl[id(holder)] = tail
+            continue
+        if kind in ("any", "all") and not test and getattr(holder, "value", None) is n and \
+                ((isinstance(holder, ast.Assign) and len(holder.targets) == 1 and isinstance(holder.targets[0], ast.Name)) or isinstance(holder, ast.Return)):
+            # x = any(...) / return all(...): True / False chosen by a cascade of statements, one test per row
+            def leaf2(v: bool, where: ast.AST, holder=holder) -> ast.stmt:
+                c = ast.Constant(value=v)
+                st = ast.Return(value=c) if isinstance(holder, ast.Return) else ast.Assign(targets=[ast.Name(id=holder.targets[0].id, ctx=ast.Store())], value=c)
+                return at(st, where)
+            tail = [leaf2(kind == "all", n)]
+            for conds, elt in reversed(terms):
+                hit = conj([*conds, elt if kind == "any" else negated(elt)])
+                tail = [at(ast.If(test=hit, body=[leaf2(kind == "any", hit)], orelse=tail), hit)]
+            stmt_repl[id(holder)] = tail
+            continue
+        if kind == "next":
+            out = clone(n.args[1])
+            for conds, elt in reversed(terms):
+                out = at(ast.IfExp(test=conj(conds), body=elt, orelse=out), conds[0]) if conds else elt
+        else:
+            hits = [conj([*conds, elt if kind == "any" else negated(elt)]) for conds, elt in terms]
+            if test:
+                out = hits[0] if len(hits) == 1 else ast.BoolOp(op=ast.Or(), values=hits)
+                if kind == "all":
+                    out = ast.UnaryOp(op=ast.Not(), operand=out)
+            else:
+                out = ast.Constant(value=kind == "all")
+                for h in reversed(hits):
+                    out = at(ast.IfExp(test=h, body=ast.Constant(value=kind == "any"), orelse=out), h)
+        repl[id(n)] = ast.copy_location(out, n)
+    if repl or stmt_repl:
+        changed = True
+
+        class Put(ast.NodeTransformer):
+            def visit_Call(self, x):  # noqa: N802
+                return repl[id(x)] if id(x) in repl else self.generic_visit(x)
+
+            def visit_Assign(self, x):  # noqa: N802
+                return stmt_repl[id(x)] if id(x) in stmt_repl else self.generic_visit(x)
+            visit_Return = visit_Assign
+
+            def visit_FunctionDef(self, x):  # noqa: N802
+                return x if x is not new else self.generic_visit(x)
+            visit_AsyncFunctionDef = visit_Lambda = visit_ClassDef = visit_FunctionDef
+        Put().visit(new)
+    if not changed:
+        return fi
+    ast.fix_missing_locations(new)
+    set_parents(new)
+    new.__dict__.pop("_c17_local_defs", None)
+    return FuncInfo(fi.name, fi.qualname, new, fi.module, fi.cls)
+
+
+def _loops_unrolled(ctx: Ctx, fi: FuncInfo) -> FuncInfo:
     loops = [l for l in walk_no_nested(fi.node) if isinstance(l, ast.For)]
     if not loops or isinstance(fi.node, ast.Lambda):
         return fi
@@ -1151,18 +1532,28 @@ def _unrolled(ctx: Ctx, fi: FuncInfo) -> FuncInfo:
         return False
     plan = {}
     for l in loops:
-        elts = _loop_literal(ctx, fi, l.iter) if not l.orelse and isinstance(l.target, ast.Name) else None
-        if elts is None or escapes(l.body):
+        if l.orelse or escapes(l.body):
             continue
-        name = l.target.id
-        if any(isinstance(n, ast.Name) and n.id == name and isinstance(n.ctx, (ast.Store, ast.Del)) for st in l.body for n in ast.walk(st)):
+        if isinstance(l.target, ast.Name):
+            names = [l.target.id]
+            found = _loop_rows(ctx, fi, l.iter, 0)
+        elif isinstance(l.target, (ast.Tuple, ast.List)) and l.target.elts and all(isinstance(t, ast.Name) for t in l.target.elts) \
+                and len({t.id for t in l.target.elts}) == len(l.target.elts):
+            names = [t.id for t in l.target.elts]
+            found = _loop_rows(ctx, fi, l.iter, len(names))
+        else:
             continue
-        if len(local_defs(fi, name)) != 1 or name in fi.params():
+        if found is None:
+            continue
+        rows = found[0]
+        if any(len(local_defs(fi, name)) != 1 or name in fi.params() for name in names):
             continue
         inside = {id(n) for st in l.body for n in ast.walk(st)}
-        if any(isinstance(n, ast.Name) and n.id == name and isinstance(n.ctx, ast.Load) and id(n) not in inside for n in ast.walk(fi.node)):
-            continue                               # the loop variable is read after the loop
-        plan[(l.lineno, l.col_offset)] = (name, elts)
+        if any(isinstance(n, ast.Name) and n.id in names and isinstance(n.ctx, ast.Load) and id(n) not in inside for n in ast.walk(fi.node)):
+            continue                               # a loop variable is read after the loop
+        if not _row_env(fi, names, rows, l.body):
+            continue
+        plan[(l.lineno, l.col_offset)] = (names, rows)
     if not plan:
         return fi
     new = clone(fi.node)
@@ -1173,13 +1564,10 @@ def _unrolled(ctx: Ctx, fi: FuncInfo) -> FuncInfo:
             key = (n.lineno, n.col_offset)
             if key not in plan:
                 return n
-            name, elts = plan[key]
+            names, rows = plan[key]
             out = []
-            for e in elts:
-                class Sub(ast.NodeTransformer):
-                    def visit_Name(self, x):  # noqa: N802
-                        return clone(e) if x.id == name and isinstance(x.ctx, ast.Load) else x
-                out.extend(Sub().visit(clone(st)) for st in n.body)
+            for r in rows:
+                out.extend(_row_subst(names, r, st) for st in n.body)
             return out
 
         def visit_FunctionDef(self, n):  # noqa: N802
@@ -1188,10 +1576,7 @@ def _unrolled(ctx: Ctx, fi: FuncInfo) -> FuncInfo:
     Unroll().visit(new)
     ast.fix_missing_locations(new)
     set_parents(new)
-    out = FuncInfo(fi.name, fi.qualname, new, fi.module, fi.cls)
-    new.__dict__["_c17_unrolled"] = out
-    memo["_c17_unrolled"] = out
-    return out
+    return FuncInfo(fi.name, fi.qualname, new, fi.module, fi.cls)
 
 
 def _wrapper_of(dfn: ast.AST, args: list | None):
@@ -1733,6 +2118,20 @@ def _unconditional(node: ast.AST):
             todo.extend(ast.iter_child_nodes(n))
 
 
+def _atoms_total(e: ast.AST, pol: bool) -> list:
+    """
+    match._atoms_with_polarity, except that a member which cannot be split (a falsy `x and y`, a truthy `x or y`) is kept as
+    one compound fact instead of being dropped: `not (a or (x and y))` says `not a` and `not (x and y)`.
+    """
+    if isinstance(e, ast.UnaryOp) and isinstance(e.op, ast.Not):
+        return _atoms_total(e.operand, not pol)
+    if isinstance(e, ast.BoolOp):
+        if isinstance(e.op, ast.And) == pol:
+            return [f for v in e.values for f in _atoms_total(v, pol)]
+        return [fact_of(e, pol)]
+    return _atoms_with_polarity(e, pol) or [fact_of(e, pol)]
+
+
 def _safe(pred, f: Fact) -> bool:
     try:
         return bool(pred(f))
@@ -2130,7 +2529,7 @@ class _Paths:
                 return self._final_pairs(s, sat, truth, tk, st, depth + 1)
             return self.outcome(s, sat, None, tuple(path), tk) if isinstance(s, ast.Call) else []
         out = []
-        for f in _atoms_with_polarity(expr, truth):
+        for f in _atoms_total(expr, truth):
             out.extend(self.pairs(*_pair_of(f), st))
         return out
 
@@ -2829,8 +3228,21 @@ def rule_should_sign(ctx: Ctx) -> None:  # noqa: C901, PLR0912, PLR0915
         results["registered metadata"] = p.holds(meta_ok)
         if not all(results.values()):
             # a verdict taken by a callable that is only known at run time (picked by a computed key, getattr, a parameter) cannot be read
-            opaque = [c for c in calls(fi) if (isinstance(c.func, ast.Name) and (local_defs(fi, c.func.id) or c.func.id in fi.params()))
+            def named(c: ast.Call) -> bool:
+                # an early-bound method (`get = self.db.get`, never rebound) is that method, not a choice
+                x = _expand(fi, c.func, GS)
+                return isinstance(x, ast.Attribute) and chain(x) is not None and not (isinstance(x.value, ast.Name) and (local_defs(fi, x.value.id) or x.value.id in fi.params()[1:]))
+            inner = set()
+            for n in ast.walk(fi.node):
+                if isinstance(n, (ast.ListComp, ast.SetComp, ast.DictComp, ast.GeneratorExp)):
+                    inner |= _comp_bound(n)
+                elif isinstance(n, ast.Lambda):
+                    inner |= {a.arg for a in [*n.args.posonlyargs, *n.args.args, *n.args.kwonlyargs]}
+            opaque = [c for c in calls(fi) if (isinstance(c.func, ast.Name) and (local_defs(fi, c.func.id) or c.func.id in fi.params()) and not named(c))
                       or isinstance(c.func, ast.Subscript) or (isinstance(c.func, ast.Call) and chain(c.func.func) == "getattr")]
+            # ... also when it is the variable of a comprehension / the parameter of a lambda that is called
+            opaque += [c for c in ast.walk(fi.node) if isinstance(c, ast.Call) and ((isinstance(c.func, ast.Name) and c.func.id in inner) or
+                                                                                 (isinstance(c.func, ast.Subscript) and isinstance(c.func.value, ast.Name) and c.func.value.id in inner))]
             if opaque:
                 raise AnalysisError(f"undecided: should_sign decides through `{norm(opaque[0])[:80]}`, a callable chosen at run time; "
                                     f"`{[w for w, ok in results.items() if not ok][0]}` could not be established without reading it")
